@@ -73,6 +73,26 @@ class Cx:
                 if f is not None:
                     self.renamed[suffix] = fn_name(f)
         if f is None:
+            # a plain rename: the reference function vanished and exactly one new private function of the same
+            # impl has its signature (the same test inline.py uses to tell a rename from an extraction)
+            try:
+                import json, os
+                from .an import strip_generics as _sg
+                from .inline import _short
+                ref = json.load(open(os.path.join(os.path.dirname(os.path.abspath(__file__)), "fn_table.json")))["fns"]
+                ks = [k for k in ref if k.endswith("::" + suffix) or k == suffix]
+                cur = {_short(k): x for k, x in self.facts.fns.items() if not x.is_closure and x.crate == "raft"}
+                if len(ks) == 1 and ks[0] not in cur:
+                    sig = ref[ks[0]]
+                    cands = [x for k, x in cur.items() if k not in ref and x.vis != "Public" and x.impl_adt == sig[0] and x.body.arg_count == sig[1]
+                             and [x.body.local_ty(i) for i in range(sig[1] + 1)] == list(sig[2])
+                             and k.split("::")[:2] == ks[0].split("::")[:2]]
+                    if len(cands) == 1:
+                        f = cands[0]
+                        self.renamed[suffix] = fn_name(f)
+            except Exception:
+                f = None
+        if f is None:
             # a private method turned into a free function of the same module (or the reverse) keeps its name
             last = suffix.rsplit("::", 1)[-1]
             mod = None
